@@ -109,6 +109,16 @@ func runC11(c *core.Ctx) {
 		if r.Bool() {
 			cf.Alloc.Length = capFrames
 		}
+		if ci%8 == 6 {
+			// allocator without storage (zero capacity or zero channels): the
+			// buffers are bare headers; ownership is then tracked by the header
+			cf.Alloc = signal.Allocator{Channels: r.Pick(0, 1, 2), Length: 0, Capacity: 0}
+			if cf.Alloc.Channels == 0 {
+				cf.Alloc.Capacity = 8
+			}
+			cf.SliceOnPut = false
+			c.Obs("configurations_with_storage_less_allocator", 1)
+		}
 		total := c.Pick(1500, 4000)
 		if !race {
 			total = c.Pick(4000, 20000)
@@ -120,7 +130,10 @@ func runC11(c *core.Ctx) {
 		if cf.GCEvery > 0 {
 			gcs := (cf.M/cf.GCEvery + 1) * (cf.G/4 + 1)
 			per := cf.Alloc.Channels * 8 * cf.G * 3 * gcs
-			if lim := (256 << 20) / per; cf.Alloc.Capacity > lim {
+			if per == 0 {
+				per = 1
+			}
+			if lim := (256 << 20) / per; cf.Alloc.Capacity > lim && cf.Alloc.Channels*cf.Alloc.Capacity > 0 {
 				cf.Alloc.Capacity = max(8, lim)
 				if cf.Alloc.Length > 0 {
 					cf.Alloc.Length = cf.Alloc.Capacity
@@ -136,6 +149,7 @@ func runC11(c *core.Ctx) {
 			break
 		}
 	}
+	c.Floor("configurations_with_storage_less_allocator", 1)
 	c.Floor("handoffs_between_goroutines", 50)
 	c.Floor("gets_returning_a_previously_put_storage", 100)
 	c.Floor("histories_checked_by_porcupine", 1)
@@ -333,9 +347,17 @@ func c11Worker(w *c11worker, pool dyn.Pool, t *dyn.TypeOps, cf c11cfg, r *core.R
 			t1 := time.Since(base).Nanoseconds()
 			w.gets++
 			w.pins = append(w.pins, b)
-			w.events = append(w.events, c11event{g: w.g, put: false, key: b.RawBase(), call: t0, ret: t1})
+			key := b.RawBase()
+			if al.Channels*al.Capacity == 0 {
+				key = b.HeaderAddr() // no storage: the header is the buffer
+			}
+			w.events = append(w.events, c11event{g: w.g, put: false, key: key, call: t0, ret: t1})
 			// freshness (C10's oracle)
-			if b.Channels() != al.Channels || b.Length() != al.Length || b.Capacity() != al.Capacity || b.RawLen() != al.Channels*al.Length || b.RawCap() != al.Channels*al.Capacity {
+			wantLength, wantCapacity := al.Length, al.Capacity
+			if al.Channels == 0 {
+				wantLength, wantCapacity = 0, 0
+			}
+			if b.Channels() != al.Channels || b.Length() != wantLength || b.Capacity() != wantCapacity || b.RawLen() != al.Channels*al.Length || b.RawCap() != al.Channels*al.Capacity {
 				fail("shape", fmt.Sprintf("goroutine %d cycle %d: Get returned %v, allocator {C=%d L=%d K=%d}", w.g, cy, mon.ShapeOf(b), al.Channels, al.Length, al.Capacity))
 			} else {
 				for j := 0; j < b.RawCap(); j++ {
@@ -351,9 +373,13 @@ func c11Worker(w *c11worker, pool dyn.Pool, t *dyn.TypeOps, cf c11cfg, r *core.R
 				n = int64(1 + (w.g*131+cy)%30000)
 			}
 			s := t.FromInt(n)
-			full := b.Slice(0, al.Capacity)
-			for j := 0; j < full.Len(); j++ {
-				full.SetSample(j, s)
+			if al.Channels*al.Capacity > 0 {
+				full := b.Slice(0, al.Capacity)
+				for j := 0; j < full.Len(); j++ {
+					full.SetSample(j, s)
+				}
+			} else {
+				b.AppendSample(s) // a no-op on a buffer without capacity
 			}
 			held = append(held, b)
 			stamps = append(stamps, s)
@@ -377,6 +403,9 @@ func c11Worker(w *c11worker, pool dyn.Pool, t *dyn.TypeOps, cf c11cfg, r *core.R
 				w.pins = append(w.pins, pb)
 			}
 			key := pb.RawBase()
+			if al.Channels*al.Capacity == 0 {
+				key = pb.HeaderAddr()
+			}
 			t0 := time.Since(base).Nanoseconds()
 			if p, msg := core.Guard(func() { pool.Put(pb) }); p {
 				fail("panic", fmt.Sprintf("goroutine %d cycle %d: Put panicked: %s", w.g, cy, msg))
